@@ -71,6 +71,7 @@ type Space struct {
 
 // Ctx is the per-worker state of a check run.
 type Ctx struct {
+	known   *Known
 	Prop    string
 	Tier    string
 	Shard   int
@@ -200,7 +201,18 @@ func (c *Ctx) failWithSite(clause, site, detail string) {
 	}
 	c.ViolN++
 	key := clause + "|" + site
-	if c.violBy[key] >= maxViolPerKey || len(c.Viol) >= maxViolTotal {
+	limit := maxViolPerKey
+	if c.known == nil && c.Prop != "" {
+		c.known = LoadKnown(filepath.Join(VerifDir, "known_findings.txt"), c.Prop)
+	}
+	if c.known != nil {
+		// a listed finding is counted under its own key, so that it cannot use up the room of other violations
+		// that happen to have the same clause name
+		if t := c.known.Match(&v); t != "" {
+			key, limit = "known|"+t, 2
+		}
+	}
+	if c.violBy[key] >= limit || len(c.Viol) >= maxViolTotal {
 		return
 	}
 	c.violBy[key]++
